@@ -215,6 +215,108 @@ Proof.
   unfold firstnN. rewrite firstn_firstn, Nat.min_id. reflexivity.
 Qed.
 
+(* ---------- an interrupt while the program waits at an INPUT prompt ---------- *)
+Lemma lensed_execute_input : lensed execute_input.
+Proof. unfold execute_input. lz. Qed.
+
+(* a call in the prompt state: the prompt event (or the error) is the same *)
+Theorem prompt_ignores_dead_fields : forall r k c t ops, r_state r = StInput ->
+  same_up_to ops (rt_execute O (L c t ops r) k) (rt_execute O r k).
+Proof.
+  intros r k c t ops Hs. unfold rt_execute. change (r_state (L c t ops r)) with (r_state r). rewrite Hs.
+  destruct (lensed_execute_input c t ops r) as [c1 [t1 E]]. rewrite E.
+  destruct (execute_input r) as [r1 [ev | e | |]]; cbn [fst snd bind same_up_to].
+  - do 2 eexists. reflexivity.
+  - (* the error is reported through the error state on the next call; this call answers the forced line break or the error *)
+    cbn [r_state set_state r_col]. change (r_col (L c1 t1 ops r1)) with (r_col r1).
+    change (cur_line (L c1 t1 ops r1)) with (cur_line r1).
+    destruct (0 <? r_col r1); cbn [same_up_to]; do 2 eexists; reflexivity.
+  - reflexivity.
+  - reflexivity.
+Qed.
+
+Lemma resumed_in_wait : forall r, r_state r = StInput -> r_pc r < r_entry r -> r_col r = 0 -> Linked (r_prog r) -> tidy r ->
+  r_entry r = pg_direct (r_prog r) ->
+  resumed (at_prompt (rt_interrupt r))
+  = L (r_pc r) None (firstnN (pg_direct (r_prog r)) (l_ops (pg_link (r_prog r))) ++ [OpCont; OpEnd]) r.
+Proof.
+  intros r Hs Hpc Hcol HL (Hc & Hl & Hpe & Hpl) He. rewrite (interrupt_in_program r Hpc), Hs.
+  destruct HL as [Hu Hw Hcu _ _ _ _ _ _].
+  destruct r as [prompt listing snap dirty prog pc tr tron entry stack slen vars state cont cont_pc col rand fns ent].
+  destruct prog as [perrs pind pdir pline plink]. destruct plink as [lcur lops ldata ldpos ldset lsyms lunl lwh].
+  cbn in Hs, Hcol, Hu, Hw, Hcu, Hc, Hl, Hpe, Hpl, He. subst.
+  unfold resumed, entered, at_prompt, cont_prog, L, with_ops. cbn. rewrite Hl. reflexivity.
+Qed.
+
+(* interrupt at the prompt, ?BREAK, READY, CONT: the CONT call gives control back at once, and the next call asks the same question *)
+Theorem interrupt_at_prompt_is_transparent : forall r k k',
+  r_state r = StInput -> r_pc r < r_entry r -> r_dirty r = false -> r_tron r = false -> Linked (r_prog r) ->
+  r_entry r = pg_direct (r_prog r) -> r_col r = 0 -> tidy r ->
+  let rB := at_prompt (rt_interrupt r) in
+  rt_enter O rB cont_text = Ok (entered rB, true)
+  /\ rt_execute O (entered rB) (N.succ k) = Ok (resumed rB, EvRunning)
+  /\ same_up_to (firstnN (pg_direct (r_prog r)) (l_ops (pg_link (r_prog r))) ++ [OpCont; OpEnd])
+                (rt_execute O (resumed rB) k') (rt_execute O r k').
+Proof.
+  intros r k k' Hs Hpc Hd Ht HL He Hcol Htidy. cbn zeta.
+  rewrite (interrupt_in_program r Hpc), Hs.
+  set (rB := at_prompt (set_cont_pc (set_cont (set_state r StInterrupt) StInput) (r_pc r))).
+  assert (HdB : r_dirty rB = false) by exact Hd.
+  assert (HLB : Linked (r_prog rB)) by exact HL.
+  assert (HtB : r_tron rB = false) by exact Ht.
+  split; [rewrite enter_cont by exact I; rewrite (enter_direct_cont rB HdB HLB); reflexivity |].
+  split.
+  - rewrite exec_running by reflexivity. rewrite N2Nat.inj_succ.
+    rewrite (cont_instruction_waits O rB _ _ HdB HLB HtB eq_refl eq_refl). reflexivity.
+  - pose proof (resumed_in_wait r Hs Hpc Hcol HL Htidy He) as E. rewrite (interrupt_in_program r Hpc), Hs in E. fold rB in E.
+    rewrite E. apply prompt_ignores_dead_fields. exact Hs.
+Qed.
+
+(* ---------- the reply to the prompt, and the instructions that store its fields ---------- *)
+Lemma enter_input_lens : forall r s c t ops, exists c' t', enter_input O (L c t ops r) s = L c' t' ops (enter_input O r s).
+Proof.
+  intros r s c t ops. unfold enter_input. destruct (MAX_LINE_LEN <? utf8_len s); [do 2 eexists; reflexivity |].
+  change (r_stack (L c t ops r)) with (r_stack r). change (r_pc (L c t ops r)) with (r_pc r).
+  destruct (r_stack r) as [| v st]; [destruct (lensed_do_clear O c t ops r) as [c1 [t1 E]]; rewrite E; do 2 eexists; reflexivity |].
+  destruct v; try (destruct (lensed_do_clear O c t ops r) as [c1 [t1 E]]; rewrite E; do 2 eexists; reflexivity).
+  match goal with |- context [if ?b then set_state _ StInputRedo else _] => destruct b end; [do 2 eexists; reflexivity |].
+  match goal with |- context [match ?m (L c t ops r) with _ => _ end] =>
+    assert (Hm : lensed m) by (apply lensed_bind; [apply lensed_push | intros _];
+                               apply lensed_bind; [apply lensed_fold_push; apply lensed_ret | intros _];
+                               apply lensed_rmod; intros; lens_cbn; do 2 eexists; reflexivity);
+    destruct (Hm c t ops r) as [c1 [t1 E]]; rewrite E; destruct (m r) as [r1 [u | e | |]]; cbn [fst snd] end.
+  - do 2 eexists; reflexivity.
+  - destruct (lensed_do_clear O c1 t1 ops r1) as [c2 [t2 E2]]. rewrite E2. do 2 eexists. reflexivity.
+  - destruct (lensed_do_clear O c1 t1 ops r1) as [c2 [t2 E2]]. rewrite E2. do 2 eexists. reflexivity.
+  - destruct (lensed_do_clear O c1 t1 ops r1) as [c2 [t2 E2]]. rewrite E2. do 2 eexists. reflexivity.
+Qed.
+
+Theorem reply_ignores_dead_fields : forall r s c t ops, r_state r = StInput ->
+  exists c' t', rt_enter O (L c t ops r) s = Ok (L c' t' ops (set_col (enter_input O r s) 0), true)
+                /\ rt_enter O r s = Ok (set_col (enter_input O r s) 0, true).
+Proof.
+  intros r s c t ops Hs. unfold rt_enter. change (r_state (L c t ops r)) with (r_state r). rewrite Hs.
+  destruct (enter_input_lens r s c t ops) as [c1 [t1 E]]. rewrite E. exists c1, t1. split; reflexivity.
+Qed.
+
+Lemma exec_input_running : forall r k, r_state r = StInputRunning -> ls_dir_errors (r_listing r) = [] ->
+  rt_execute O r k =
+  after_loop (exec_loop O (N.to_nat k) (match ls_ind_errors (r_listing r) with [] => false | _ => true end) r).
+Proof. intros r k H H2. unfold rt_execute. rewrite H, H2. cbn [bind]. rewrite H. reflexivity. Qed.
+
+(* the call that stores the fields (and, on a refused field, unwinds to the prompt) *)
+Theorem field_stores_ignore_dead_fields : forall r k e0 c t ops,
+  r_state r = StInputRunning -> ls_dir_errors (r_listing r) = [] ->
+  safe_run O e0 (N.to_nat k) (has_ind r) r -> firstnN e0 ops = firstnN e0 (l_ops (pg_link (r_prog r))) ->
+  same_up_to ops (rt_execute O (L c t ops r) k) (rt_execute O r k).
+Proof.
+  intros r k e0 c t ops Hs Hd Hsafe Hag.
+  rewrite (exec_input_running r k Hs Hd). rewrite (exec_input_running (L c t ops r) k) by assumption.
+  change (r_listing (L c t ops r)) with (r_listing r). fold (has_ind r).
+  destruct (run_ignores_dead_fields O (N.to_nat k) (has_ind r) e0 r c t ops Hsafe Hag) as [c' [t' E]]. rewrite E.
+  destruct (exec_loop O (N.to_nat k) (has_ind r) r) as [r2 x]. cbn [fst snd]. apply after_loop_lens.
+Qed.
+
 (* ---------- the calls that follow, for as long as the machine keeps running ---------- *)
 Fixpoint safe_calls (e0 : N) (ks : list N) (r : rt) : Prop :=
   match ks with
@@ -348,3 +450,23 @@ Proof.
 Qed.
 Definition before_stop : rt := before_word "STOP".
 Definition before_end : rt := before_word "END".
+
+(* non-vacuity: a program waiting at its INPUT prompt *)
+Definition waiting_machine : rt :=
+  let O := dummy_oracle in
+  let r0 := ok_ex (rt_execute O rt_default 5000) in
+  let r1 := ok_rt (rt_enter O r0 (s2l "10 A=5")) in
+  let r2 := ok_rt (rt_enter O r1 (s2l "20 INPUT N")) in
+  let r3 := ok_rt (rt_enter O r2 (s2l "30 PRINT A+N")) in
+  let r4 := ok_ex (rt_execute O r3 5000) in
+  let r5 := ok_rt (rt_enter O r4 (s2l "RUN")) in
+  ok_ex (rt_execute O r5 5000).
+Example waiting_premises :
+  let r := waiting_machine in
+  r_state r = StInput /\ r_pc r < r_entry r /\ r_dirty r = false /\ r_tron r = false /\ Linked (r_prog r)
+  /\ r_entry r = pg_direct (r_prog r) /\ r_col r = 0 /\ tidy r /\ r_stack r <> nil.
+Proof.
+  cbn zeta. split; [vm_compute; reflexivity |]. split; [vm_compute; reflexivity |]. split; [vm_compute; reflexivity |].
+  split; [vm_compute; reflexivity |]. split; [apply linked_b_ok; vm_compute; reflexivity |]. split; [vm_compute; reflexivity |].
+  split; [vm_compute; reflexivity |]. split; [unfold tidy; vm_compute; repeat split | vm_compute; discriminate].
+Qed.
